@@ -504,6 +504,19 @@ impl RibUnitRunner {
         self.roto_function_pre = f;
     }
 
+    /// Verification hook: the RIB unit's own metrics (the source the
+    /// status reporter writes to) as the /metrics endpoint renders them.
+    #[cfg(feature = "verif-hooks")]
+    pub fn verif_metrics_prometheus(&self) -> String {
+        let mut target = crate::metrics::Target::new(
+            crate::metrics::OutputFormat::Prometheus,
+        );
+        if let Some(m) = self.status_reporter.metrics() {
+            m.append("verif-rib", &mut target);
+        }
+        target.into_string()
+    }
+
     /// Verification hook: the gate this runner sends its updates to.
     #[cfg(feature = "verif-hooks")]
     pub fn verif_gate(&self) -> Arc<Gate> {
